@@ -587,7 +587,12 @@ class SFTPFile(BufferedFile):
 
     def _start_prefetch(self, chunks, max_concurrent_requests=None):
         self._prefetching = True
-        self._prefetch_done = False
+        # with nothing to request and nothing outstanding there will be no
+        # response to mark the end: readers must not wait for one
+        with self._prefetch_lock:
+            self._prefetch_done = (
+                len(chunks) == 0 and len(self._prefetch_extents) == 0
+            )
 
         t = threading.Thread(
             target=self._prefetch_thread,
